@@ -115,6 +115,10 @@ func scDelegate(r *Run) {
 	hs.VerifSetFS(sfs)
 	var mu sync.Mutex
 	curReq, curSess := -1, 0
+	slowLookup := time.Duration(0)
+	if r.Intn("cfg", 3) == 0 {
+		slowLookup = time.Duration(100+r.Intn("cfg", 3000)) * time.Millisecond
+	}
 	started := map[int]bool{}
 	reqCmd := map[int]execStart{}
 	var pending []execStart
@@ -151,7 +155,11 @@ func scDelegate(r *Run) {
 			at := time.Now()
 			actions = append(actions, &mAction{kind: "exec", shell: es.shell, cmd: es.cmd, at: at, sess: curSess,
 				desc: fmt.Sprintf("command shell=%v cmd=%q at +%v", es.shell, es.cmd, at.Sub(base))})
+			slow := slowLookup
 			mu.Unlock()
+			if slow > 0 {
+				time.Sleep(slow) // a slow user database: the handler of this request is still busy while others arrive
+			}
 			return nil, thunks.ErrUserNotFound
 		}
 		for _, u := range users {
@@ -263,6 +271,22 @@ func scDelegate(r *Run) {
 		}
 		mu.Unlock()
 		r.Logf("session %d: logged in as %s, owns %d grant(s)", me, user, owned)
+		// a key whose last grant has been handed out is no longer in the transport layer's set of trusted keys
+		mu.Lock()
+		left := 0
+		for _, g := range grants {
+			if g.moved == 0 && g.key == dk.Public {
+				left++
+			}
+		}
+		mu.Unlock()
+		if left == 0 && owned > 0 {
+			r.Obligation(1)
+			if ks.VerifyLeaf(SelfSigned(dk.Public, certs.RawStringName("delegate")), certs.VerifyOptions{}) == nil {
+				r.Violate("C07/key-still-trusted-after-last-grant", "after the login of session %d consumed the last of the grants stored for its delegate key (%d grants), the key is still in the transport layer's set of trusted keys", me, owned)
+				return
+			}
+		}
 		r.Obligation(1)
 		if owned == 0 {
 			r.Violate("C07/login-without-grant", "a delegate session was admitted as %s although no unconsumed grant existed for that user and key (stored grants for the key under any user: %d)", user, storedForKey)
@@ -384,6 +408,17 @@ func scDelegate(r *Run) {
 				mu.Lock()
 				reqCmd[id] = execStart{cmd, shell}
 				mu.Unlock()
+				// sometimes the same request is made twice at the same moment (a second pair of tubes)
+				if r.Intn(key, 5) == 0 {
+					u1, f1 := mux.CreateReliableTube(common.ExecTube)
+					u2, f2 := mux.CreateReliableTube(common.ExecTube)
+					if f1 == nil && f2 == nil {
+						r.CountFault("same-exec-request-twice-at-once", 1)
+						u1.Write(execInit(shell, cmd))
+						defer u1.Close()
+						defer u2.Close()
+					}
+				}
 				t1.Write(execInit(shell, cmd))
 				resp := make([]byte, 1)
 				WithTimeout(r, 20*time.Second, func() { io.ReadFull(t2, resp) })
